@@ -336,11 +336,11 @@ theorem velocity_btw (sm sv beatLen : Float) (mode : GameMode) (hsm : Btw 0.4 3.
     (precisionAdjustedBeatLen_btw sv beatLen mode hb) (by decide +kernel)
 
 /-- `1 / sv` (format versions below 8) or `1`, for `sv ∈ [0.1, 10]`. -/
-theorem mult_btw (old : Bool) (sv : Float) (hsv : Btw 0.1 10 sv) :
+theorem mult_btw (old : Prop) [Decidable old] (sv : Float) (hsv : Btw 0.1 10 sv) :
     Btw ((1 : Float) / 10) (1 / 0.1) (if old then Scalar.recip sv else 1) := by
-  cases old
-  · exact (Btw.const (1 : Float) (by decide +kernel)).weaken (by decide +kernel) (by decide +kernel) (by decide +kernel)
+  split
   · exact Btw.div (Btw.const (1 : Float) (by decide +kernel)) hsv (by decide +kernel)
+  · exact (Btw.const (1 : Float) (by decide +kernel)).weaken (by decide +kernel) (by decide +kernel) (by decide +kernel)
 
 /-- the endpoints for osu! mode (`slider_events`): `≈ 5e-7` and `7.2e8`. -/
 def osuLo : Float := velLo * 6 / 8 * (1 / 10)
